@@ -37,3 +37,5 @@ Proof. repeat split; reflexivity. Qed.
 Require Import RP.Glue.Wire RP.Glue.StreamFrame RP.Lemmas.GlueLemmas.
 Theorem C04_checker_accepts_model : forall bs, bytes bs = true -> ok_C04_USD bs (run_USD bs) = [].
 Proof. exact ok_C04_USD_accepts_model. Qed.
+Theorem C04_checker_accepts_model_can : forall c, wf_canframe c = true -> ok_C04_CAD (show_can c) (run_CAD (show_can c)) = [].
+Proof. exact ok_C04_CAD_accepts_model. Qed.
